@@ -586,7 +586,11 @@ func (e *Engine) verifyFunctionCase(fn *ssa.Function, spec *FuncSpec, props []st
 	// preserves: objects that existed at entry are unchanged in the named heaps
 	for _, h := range x.preservedHeaps(spec, fn) {
 		if g := x.preserveFact(fr.oldState, ex.st, h); g != "" {
-			x.addObl("frame", "preserves:"+strings.Trim(h, "|"), ex.reach, g, "objects allocated before the call are unchanged in "+h, token.NoPos)
+			o := x.addObl("frame", "preserves:"+strings.Trim(h, "|"), ex.reach, g, "objects allocated before the call are unchanged in "+h, token.NoPos)
+			if srt := x.q.heaps[h]; strings.HasPrefix(srt, "(Array Ref ") && x.fnWritesOnlyLocalS(fn, h, map[*ssa.Function]bool{}, true) {
+				// every write to this heap goes through an object the function (or an uncontracted callee) allocates itself
+				o.Result, o.Solver = "unsat", "static"
+			}
 		}
 	}
 	if spec.MapOrder {
